@@ -59,10 +59,12 @@ type proc struct {
 	readded        int             // jobs added again for a source id whose job had been deleted
 	writeNotifies  int             // "notify notify.Write ..." lines (logged right before the watcher's Lstat)
 	createNotifies int             // "notify notify.Create ..." lines (start-up walk and new files)
+	reopenTicks    int             // maintenance ticks that closed and reopened at least one fully read file
+	offsetsAtStop  bool            // graceful stop: "saving last known offsets..." then "stopping output" were logged
 }
 
 var (
-	reMaint    = regexp.MustCompile(`file plugin maintenance stats: not done=(\d+), resumed=(\d+)`)
+	reMaint    = regexp.MustCompile(`file plugin maintenance stats: not done=(\d+), resumed=(\d+), reopened=(\d+)`)
 	reStat     = regexp.MustCompile(`events in use=(-?\d+)/\d+.* total=(\d+)\|`)
 	reID       = regexp.MustCompile(`@k\d+-\d{6}@`)
 	reJobID    = regexp.MustCompile(`^job (\d+):`)
@@ -209,6 +211,9 @@ func (p *proc) line(b []byte) {
 			return
 		}
 		p.mTicks++
+		if m[3] != "0" {
+			p.reopenTicks++
+		}
 		if m[1] == "0" && m[2] == "0" {
 			p.mQuiet++
 		} else {
@@ -220,6 +225,8 @@ func (p *proc) line(b []byte) {
 		p.writeNotifies++
 	case strings.HasPrefix(l.Message, "notify notify.Create "):
 		p.createNotifies++
+	case l.Message == "stopping output":
+		p.offsetsAtStop = true
 	case strings.Contains(l.Message, "can't create fs watcher"):
 		p.noWatcher = true
 	case strings.HasPrefix(l.Message, "job ") && strings.HasSuffix(l.Message, " deleted"):
@@ -282,6 +289,8 @@ type result struct {
 	Run1Trunc    int    // truncations reported by run 1 (kill scenarios never truncate)
 	Run1Readded  int    // jobs re-added in run 1 after maintenance had deleted them
 	EnvProblem   string // the machine, not file.d, prevented the observation (e.g. inotify instance limit)
+	ReopensHeld  int    // maintenance ticks that reopened a file while the harness kept a line unterminated at its end
+	MinSavedDown int64  // kind downtrunc: minimum saved offset of the truncated file in the offsets file the restart sees (-1: no entry)
 	Run1Fatals   []string
 	Run1LogTail  string
 	OffsetsAtKil string
@@ -698,6 +707,49 @@ func runScenario(s *Scenario, bin string) *result {
 				time.Sleep(2 * time.Millisecond)
 			}
 			time.Sleep(10 * time.Millisecond)
+		case "WAITSAVED":
+			// wait until the offsets file on disk has an entry for the file whose smallest stream offset is >= op.Ms
+			dl := time.Now().Add(8 * time.Second)
+			ph := r.physOf(op.File)
+			for {
+				ok := false
+				if b, err := os.ReadFile(filepath.Join(r.dir, "offsets.yaml")); err == nil {
+					for _, e := range parseOffsets(string(b)) {
+						if e.Inode == ph.Inode && len(e.Streams) > 0 {
+							ok = true
+							for _, v := range e.Streams {
+								if v < int64(op.Ms) {
+									ok = false
+								}
+							}
+						}
+					}
+				}
+				if ok || !r.p.alive() {
+					break
+				}
+				if time.Now().After(dl) {
+					res.Inconclusive = "watchdog: offsets never saved far enough before the planned truncation"
+					return res
+				}
+				time.Sleep(5 * time.Millisecond)
+			}
+		case "HELDIDLE":
+			// the harness has left a line unterminated at the end of a file: wait until file.d is idle
+			// again (>= 3 maintenance ticks with the job done) and count the ticks that reopened files
+			r.p.drain()
+			r0 := r.p.reopenTicks
+			idle, dead := r.waitIdle(idleWatchdog)
+			if dead {
+				res.Inconclusive = "run 1 died while a partial line was held"
+				return res
+			}
+			if !idle {
+				res.Inconclusive = "watchdog: never idle while a partial line was held"
+				return res
+			}
+			r.p.drain()
+			res.ReopensHeld += r.p.reopenTicks - r0
 		case "MARKNOTIFY":
 			r.p.drain()
 			for i := range s.Ops {
@@ -758,13 +810,32 @@ func runScenario(s *Scenario, bin string) *result {
 			ph.Epoch++
 			oldSize := ph.Size
 			ph.Size = 0
-			r.p.touch()
-			r.note("truncated %s at size %d", filepath.Base(ph.Path), oldSize)
+			limit := oldSize
+			if r.p != nil {
+				r.p.touch()
+			} else {
+				// truncated while file.d is down: the new content must stay below the smallest offset the
+				// restart will resume from (below that the truncation is visible to file.d at once)
+				res.MinSavedDown = -1
+				for _, e := range parseOffsets(res.OffsetsAtKil) {
+					if e.Inode == ph.Inode {
+						for _, v := range e.Streams {
+							if res.MinSavedDown < 0 || v < res.MinSavedDown {
+								res.MinSavedDown = v
+							}
+						}
+					}
+				}
+				if res.MinSavedDown >= 0 {
+					limit = res.MinSavedDown
+				}
+			}
+			r.note("truncated %s at size %d (new content must stay below %d)", filepath.Base(ph.Path), oldSize, limit)
 			if op.Ms > 0 {
 				time.Sleep(time.Duration(op.Ms) * time.Millisecond)
 			}
 			// enforce: post-truncation content stays below the old read offset
-			r.oldSz[op.File] = oldSize
+			r.oldSz[op.File] = limit
 			r.phase = "post"
 		case "WAITIDS":
 			ph := r.physOf(op.File)
@@ -780,6 +851,10 @@ func runScenario(s *Scenario, bin string) *result {
 			for {
 				r.p.drain()
 				if !r.p.alive() {
+					if s.Kind != "trunc" {
+						r.endRun2()
+						return res
+					}
 					r.finishSingleRun("died after the truncation")
 					return res
 				}
@@ -793,7 +868,11 @@ func runScenario(s *Scenario, bin string) *result {
 				}
 				if n := r.p.mTicks - ticks0; n*s.Cfg.TickMs >= stuckMs && !r.p.idle() {
 					res.Stuck = fmt.Sprintf("%d maintenance ticks of %dms after the last write", n, s.Cfg.TickMs)
+					d1 := res.D1
 					r.finishSingleRun("")
+					if s.Kind != "trunc" {
+						res.D1 = d1
+					}
 					res.Run2LogTail = sanitize(r.p.logTail(8000), r.dir)
 					return res
 				}
@@ -915,6 +994,33 @@ func (r *runner) endRun1(op Op) {
 		return
 	}
 	switch k.Mode {
+	case "term":
+		// graceful stop: SIGTERM, file.d saves its last offsets and exits
+		time.Sleep(time.Duration(k.DelayMs) * time.Millisecond)
+		if !p.alive() {
+			res.KilledBy = "self"
+		} else {
+			_ = syscall.Kill(p.cmd.Process.Pid, syscall.SIGTERM)
+			// the input plugin saves its last offsets in Stop; the process itself may take long to exit
+			// afterwards (not this property's concern): it gets 1.5 s after "stopping output", 8 s in all
+			dl := time.Now().Add(8 * time.Second)
+			var stopAt time.Time
+			for {
+				if p.waitExit(20 * time.Millisecond) {
+					res.KilledBy = "term"
+					break
+				}
+				p.drain()
+				if p.offsetsAtStop && stopAt.IsZero() {
+					stopAt = time.Now()
+				}
+				if (!stopAt.IsZero() && time.Since(stopAt) > 1500*time.Millisecond) || time.Now().After(dl) {
+					res.KilledBy = "term-then-kill"
+					p.kill()
+					break
+				}
+			}
+		}
 	case "external":
 		time.Sleep(time.Duration(k.DelayMs) * time.Millisecond)
 		if !p.alive() {
